@@ -48,4 +48,10 @@ def jobs(tier):
             add('operator_job', 'op[%s,%s,scalar]' % (list(lv), opn), lengths=lv, opname=opn, other='scalar')
         add('copy_job', 'copy[%s]' % list(lv), lengths=lv)
         add('reduce_job', 'reductions-and-bool-ops[%s]' % list(lv), lengths=lv)
+        if sum(lv) <= 6:
+            for form in ('nested', 'flat'):
+                for op_ in (('frame', 0, 0), ('frame', n - 1, lv[-1] - 1), ('row', 0), ('row', n - 1), ('iadd',), ('append', (2, 1)),
+                            ('append-ra', (1, 2)), ('slice2d-scalar', slice(None), slice(0, 1))):
+                    add('vector_write_job', 'vector-write[%s,%s,%s]' % (list(lv), form, '-'.join(str(x) for x in op_[:3] if not isinstance(x, slice))),
+                        lengths=lv, op=op_, form=form)
     return J
